@@ -14,7 +14,7 @@ for mp in sorted(glob.glob(os.path.join(VERIF, "seeded", "*", "meta.json"))):
             sig = s[0].replace("signature=", "")
             break
     rows.append("| %s | %s | %s | %s | %s | %s | %s |" % (m["name"], m["property"], ", ".join(m.get("files", [])), "yes" if m.get("suite_ok") else "NO", "yes" if m.get("demo_ok") else "NO",
-                                                    ", ".join(m.get("detected_by", [])) or "**none**", ("`%s`" % sig) if sig else ""))
+                                                    ", ".join(m.get("detected_by", [])) or ("none — " + m["verdict"] if m.get("verdict") else "**none**"), ("`%s`" % sig) if sig else ""))
     
 with open(os.path.join(VERIF, "seeded", "RESULTS.md"), "w") as f:
     f.write("# Seeded changes (written by independent sub-agents from the property text only) and which checks report them\n\n")
